@@ -5,8 +5,16 @@ Model: `Lex.lean` / `Parse.lean` / `Write.lean` (Steel's lexer, the datum parser
 writer `(write)` uses), tied to /repo on every run by the differential check.
 
   * `read_total_partial`, `spans_in_bounds`, `tokens_in_order` — every token / error span of the model
-                                       reader satisfies start ≤ end ≤ utf8Len src (PARTIAL: the model's
-                                       artificial outcomes `outOfFuel` / `unmodelled` are not excluded);
+                                       reader satisfies start ≤ end ≤ utf8Len src;
+  * `read_total`, `lex_fuel_adequate`, `token_consumes`, `read_unmodelled_only_polar` — fuel adequacy: the
+                                       model reader never answers `outOfFuel` (lexer and parser), so its
+                                       totality is a theorem; `unmodelled` only for `@doc` comments (excluded
+                                       by the decidable hypothesis `NoDocComment`) and polar literals;
+  * `spans_on_char_boundaries`       — every token span starts and ends on a character boundary (`Boundary`);
+  * `read_total_modelled`            — … and never `unmodelled` either when the token stream has no `@doc`
+                                       comment and no polar literal (the two inputs that reach it);
+  * `write_beyond_limit`, `write_deep`, `depth_guard_tight`, `counter_depth_129` — what the writer does
+                                       beyond depth 128 and that `depth ≤ 128` is exactly the guard;
   * `ReadWrite`                      — the full statement of the property (all representable data);
   * `read_write_partial`             — `ReadWrite` restricted to the decidable class `WFD`
                                        (`Model.lean`), proved by induction over ALL such data: any
@@ -16,12 +24,17 @@ writer `(write)` uses), tied to /repo on every run by the differential check.
   * `not_ReadWrite` and the `counter_*` theorems — the full statement is false for the code that
     exists; each witness is replayed on the real reader/writer (open findings K12a–K12d).
 
-Not proved (checked on the real code by the differential run only): that span ends fall on
-character boundaries; that the fuel of the model is never exhausted (`outOfFuel` never shows up in
-the correspondence); inexact numbers; the program-level printer (`parse ∘ pretty`).
+Not proved (checked on the real code by the differential run only): that ERROR spans fall on
+character boundaries; inexact numbers; the program-level printer (`parse ∘ pretty`); the quotation
+forms other than `quote`; the `|..|` quoting of `print` (model `printSym` in Write.lean, compared with
+the real `print` and read back on every run, no theorem).
 -/
 import SteelVerif.C12.LemmasTop
 import SteelVerif.C12.LemmasTotal
+import SteelVerif.C12.LemmasFuel
+import SteelVerif.C12.LemmasFuelLex
+import SteelVerif.C12.LemmasBoundary
+import SteelVerif.C12.LemmasPolar
 namespace SteelVerif.C12
 
 /-! ## reading is total, and every reported location lies inside the text -/
@@ -44,16 +57,38 @@ theorem tokens_in_order (src : Text) : TokSorted 0 (lex src) := lex_sorted src
 
 example : TokSorted 0 (lex t!"(é \"λ\")") ∧ (lex t!"(é \"λ\")").length = 4 := ⟨tokens_in_order _, by decide⟩
 
+/-- `spans_on_char_boundaries` (tokens): the start and the end of every TOKEN of a text are character boundaries
+    of the text - each is the UTF-8 length of a prefix (`Boundary`).  This is what makes `Lexer::slice()`
+    (`source.get(span).unwrap()`) and every later slicing of the source by a token span safe; byte/character
+    confusions in the lexer (the `#!` line, the `|..|` prefix copy) break exactly this.
+    PARTIAL: error spans (`self.error`, set from positions like `pos - 1` next to one-byte characters, never
+    reset) are not covered; they are checked on the real code by the differential run (oracle B). -/
+theorem spans_on_char_boundaries (src : Text) :
+    ∀ it ∈ lex src, IsTok it = true → Boundary src it.s ∧ Boundary src it.e := lex_boundaries src
+
+/-- non-vacuity (applied): the identifier `é` after a three-byte character: bytes 4..6, prefixes `漢 ` and `漢 é` -/
+example : Boundary t!"漢 é" 4 ∧ Boundary t!"漢 é" 6 :=
+  spans_on_char_boundaries t!"漢 é" (.tok (.ident t!"é") 4 6) (by decide) rfl
+/-- … and a position inside a character is not a boundary -/
+example : ¬ Boundary t!"é" 1 := by
+  intro ⟨pre, suf, h, hp⟩
+  match pre, h with
+  | [], _ => simp [utf8Len] at hp
+  | [c], h =>
+    have hc : c = 'é' := by
+      have := congrArg List.head? h; simp at this; exact this.symm
+    subst hc
+    have : utf8Len ['é'] = 2 := by decide
+    omega
+  | c :: d :: r, h => have := congrArg List.length h; simp at this
+
 /-- PARTIAL.  On every text the model reader returns data or an error whose span satisfies
     `start ≤ end ≤ utf8Len src`.
     What this does NOT say (MISSING for "the reader accepts or rejects every text without failing itself"):
-    * the first disjunct-or-second is true of ANY Lean function into `Except` — totality of the MODEL is by
-      construction; a panic/abort of the real reader is not expressible here and is looked for by the
-      differential run only;
-    * the error may be the model's artificial `outOfFuel` (span `(0,0)`, trivially in bounds) or
-      `unmodelled` (`@doc` comments): that the fuel `2·len+2` / `4·tokens+4` always suffices is NOT proved
-      (it is proved implicitly for texts `write d`, `WFD d`, by `read_write_partial`), so a model that gave
-      up on every hard text would satisfy this statement too;
+    * the first disjunct-or-second is true of ANY Lean function into `Except` — a panic/abort of the real
+      reader is not expressible here and is looked for by the differential run only;
+    * by itself it does not exclude the model's artificial `outOfFuel` (span `(0,0)`, trivially in bounds):
+      that is `read_total` below (fuel adequacy);
     * that span ends fall on character boundaries. -/
 theorem read_total_partial (src : Text) :
     (∃ ds, read src = .ok ds) ∨ (∃ e, read src = .error e ∧ e.s ≤ e.e ∧ e.e ≤ utf8Len src) := by
@@ -82,6 +117,119 @@ example : [t!")", t!"((((", t!"\"abc\\", t!"|ab", t!"#| #| |#", t!"#;#;#;", t!"'
       | .error ⟨.outOfFuel, _, _⟩ => false
       | .error ⟨.unmodelled, _, _⟩ => false
       | _ => true) = true := by decide
+
+/-! ## the model reader never gives up: fuel adequacy -/
+
+/-- `lex_fuel_adequate`: with the fuel `lex` gives its loops (`2·characters + 2`; `characters + 1` for the string
+    and `|..|` readers) the token stream of ANY text contains no `outOfFuel` item. -/
+theorem lex_fuel_adequate (src : Text) : ∀ it ∈ lex src, ∀ s e, it ≠ .err .outOfFuel s e := lex_nofuel src
+
+/-- every token costs at least one character: the text left after one token is strictly shorter -/
+theorem token_consumes (pos : Nat) (c : Char) (cs : Text) (h : isWs c = false) :
+    (lexOne pos c cs).rest.length < (c :: cs).length := by
+  have := (lexOne_len pos c cs h).1
+  simp only [List.length_cons]; omega
+
+/-- the text holds no `@doc` comment (`;;@doc …` lines are the one piece of reader syntax the model leaves out) -/
+def isDocItem : LexItem → Bool
+  | .tok (.comment true) _ _ => true
+  | _ => false
+def NoDocComment (src : Text) : Prop := (lex src).any isDocItem = false
+instance (src : Text) : Decidable (NoDocComment src) := by unfold NoDocComment; exact inferInstance
+
+theorem lex_itemsPlain (src : Text) (h : NoDocComment src) : ItemsPlain (lex src) := by
+  intro it hit
+  have hno : isDocItem it = false := by
+    unfold NoDocComment at h
+    rw [List.any_eq_false] at h
+    simpa using h it hit
+  cases it with
+  | tok t s e =>
+    cases t with
+    | comment doc =>
+      cases doc with
+      | true => simp [isDocItem] at hno
+      | false => rfl
+    | _ => rfl
+  | err k s e =>
+    cases k with
+    | outOfFuel => exact absurd rfl (lex_fuel_adequate src _ hit s e)
+    | _ => rfl
+
+/-- `read_total`: totality of the MODEL reader is a theorem.  On every text without a `@doc` comment the model
+    reader returns data, or an error whose span lies inside the text and which is NOT one of the artificial
+    outcomes `outOfFuel` (parser or lexer) - the fuel `4·tokens + 4` / `tokens + 1` / `2·characters + 2` always
+    suffices (`parserFuel`: `3·tokens + 3` is enough, each token costs at most three nested calls).
+    The only remaining artificial outcome is `unmodelled`, and with no `@doc` comment it can only come from the
+    one place left in `readLoop`: a datum that contains a polar number literal `r@θ` (whose conversion is
+    floating point).
+    What this still does not say: a panic / abort / hang of the REAL reader is not expressible in the model. -/
+theorem read_total (src : Text) (hdoc : NoDocComment src) :
+    (∃ ds, read src = .ok ds) ∨
+    (∃ e, read src = .error e ∧ e.s ≤ e.e ∧ e.e ≤ utf8Len src ∧
+      e.kind ≠ .outOfFuel ∧ e.kind ≠ .syntax (.lex .outOfFuel)) := by
+  have hf := readLoop_fuel ((lex src).length + 1) {} [] (lex src) (lex_itemsPlain src hdoc) (by omega)
+  rcases read_total_partial src with h | ⟨e, he, h1, h2⟩
+  · exact Or.inl h
+  · refine Or.inr ⟨e, he, h1, h2, ?_⟩
+    unfold read at he
+    simp only at he
+    rw [he] at hf
+    rcases hf with hg | ⟨hk, _⟩
+    · exact ⟨fun h => hg (Or.inl h), fun h => hg (Or.inr (Or.inl h))⟩
+    · rw [hk]; exact ⟨by simp, by simp⟩
+
+/-- … and `unmodelled` is reached only through the polar check of `readLoop` (no `@doc` comment in the text) -/
+theorem read_unmodelled_only_polar (src : Text) (hdoc : NoDocComment src) (e : ReadErr)
+    (he : read src = .error e) : ¬ GaveUp e.kind ∨ e.kind = .unmodelled := by
+  have hf := readLoop_fuel ((lex src).length + 1) {} [] (lex src) (lex_itemsPlain src hdoc) (by omega)
+  unfold read at he
+  simp only at he
+  rw [he] at hf
+  rcases hf with hg | ⟨hk, _⟩
+  · exact Or.inl hg
+  · exact Or.inr hk
+
+/-- the text holds no polar number literal `r@θ` -/
+def NoPolarLiteral (src : Text) : Prop := (lex src).all LexItem.noPolar = true
+instance (src : Text) : Decidable (NoPolarLiteral src) := by unfold NoPolarLiteral; exact inferInstance
+
+/-- `read_total_modelled`: the inputs that reach `unmodelled` are named exactly.  On every text whose token
+    stream holds neither a `@doc` comment nor a polar literal (two decidable conditions on `lex src`) the model
+    reader returns data or a GENUINE error - not `outOfFuel`, not `unmodelled` - with its span inside the text.
+    Conversely both kinds of text do reach `unmodelled` (examples below). -/
+theorem read_total_modelled (src : Text) (hdoc : NoDocComment src) (hpol : NoPolarLiteral src) :
+    (∃ ds, read src = .ok ds) ∨
+    (∃ e, read src = .error e ∧ e.s ≤ e.e ∧ e.e ≤ utf8Len src ∧ ¬ GaveUp e.kind) := by
+  have hnp : ItemsNoPolar (lex src) := by
+    unfold NoPolarLiteral at hpol
+    rw [List.all_eq_true] at hpol
+    exact hpol
+  have hf := readLoop_nopolar ((lex src).length + 1) {} [] (lex src) (lex_itemsPlain src hdoc) hnp (by omega)
+  rcases read_total_partial src with h | ⟨e, he, h1, h2⟩
+  · exact Or.inl h
+  · refine Or.inr ⟨e, he, h1, h2, ?_⟩
+    unfold read at he
+    simp only at he
+    rw [he] at hf
+    exact hf
+
+example : (∃ ds, read t!"(1 . )" = .ok ds) ∨
+    (∃ e, read t!"(1 . )" = .error e ∧ e.s ≤ e.e ∧ e.e ≤ utf8Len t!"(1 . )" ∧ ¬ GaveUp e.kind) :=
+  read_total_modelled _ (by decide) (by decide)
+example : ¬ NoPolarLiteral t!"(1@2)" := by decide
+
+/-- non-vacuity (applied): a text with every bracket kind, escapes, a `|..|` identifier and an error -/
+example : (∃ ds, read t!"(a |b\\x41; c| \"s\\n\" #\\x . )" = .ok ds) ∨
+    (∃ e, read t!"(a |b\\x41; c| \"s\\n\" #\\x . )" = .error e ∧ e.s ≤ e.e ∧
+      e.e ≤ utf8Len t!"(a |b\\x41; c| \"s\\n\" #\\x . )" ∧
+      e.kind ≠ .outOfFuel ∧ e.kind ≠ .syntax (.lex .outOfFuel)) :=
+  read_total _ (by decide)
+/-- the hypothesis excludes texts: a `@doc` comment is one -/
+example : ¬ NoDocComment t!";;@doc\nx" := by decide
+/-- the two ways to `unmodelled`, evaluated -/
+example : read t!";;@doc\nx" = .error ⟨.unmodelled, 0, 7⟩ := rfl
+example : read t!"(1@2)" = .error ⟨.unmodelled, 0, 5⟩ := rfl
 
 /-! ## the full statement -/
 
@@ -232,6 +380,91 @@ theorem write_depth_balanced_seq (xs : List Datum) (depth : Nat) :
 /-- non-vacuity: 200 empty vectors in a row do not use up the 128 levels -/
 example : (writeSeqSt (List.replicate 200 (.vec [])) 1).2 = 1 := (write_depth_balanced_seq _ _).1
 
+/-! ## nesting deeper than 128: what the writer does, and why `depth ≤ 128` is exactly the guard -/
+
+/-- `n` one-element lists around `d` -/
+def nest : Nat → Datum → Datum
+  | 0, d => d
+  | n + 1, d => .list [nest n d]
+
+/-- beyond its limit the writer prints EVERY datum as `...`: at recursion depth 128 or more the text does not
+    depend on the datum at all -/
+theorem write_beyond_limit (k : Nat) (hk : 128 ≤ k) (d : Datum) : writeAt k d = t!"..." := by
+  have hc : ∀ t, cut k t = t!"..." := by
+    intro t; unfold cut; rw [if_pos (by omega)]
+  cases d <;> simp only [writeAt, hc]
+
+theorem cut_within (k : Nat) (hk : k < 128) (t : Text) : cut k t = t := by
+  unfold cut; rw [if_neg (by omega)]
+
+theorem writeAt_nest (d : Datum) : ∀ (n k : Nat), k + n ≤ 128 →
+    writeAt k (nest n d) = List.replicate n '(' ++ writeAt (k + n) d ++ List.replicate n ')' := by
+  intro n
+  induction n with
+  | zero => intro k _; simp [nest]
+  | succ n ih =>
+    intro k hk
+    have e : k + 1 + n = k + (n + 1) := by omega
+    simp only [nest, writeAt, writeSeq, cut_within k (by omega), ih (k + 1) (by omega), e]
+    rw [List.replicate_succ, List.replicate_succ' (n := n) (a := ')')]
+    simp
+
+/-- a datum nested 128 levels deep is written as 128 brackets around `...`, whatever it holds at the bottom:
+    the writer is not injective beyond depth 128, so no reader can invert it there -/
+theorem write_deep (d : Datum) :
+    write (nest 128 d) = List.replicate 128 '(' ++ t!"..." ++ List.replicate 128 ')' := by
+  unfold write
+  rw [writeAt_nest d 128 0 (by omega), write_beyond_limit (0 + 128) (by omega) d]
+
+theorem nest_injective (n : Nat) (a b : Datum) (h : nest n a = nest n b) : a = b := by
+  induction n with
+  | zero => exact h
+  | succ n ih =>
+    simp only [nest] at h
+    injection h with h
+    injection h with h _
+    exact ih h
+
+theorem nest_depth (n : Nat) (d : Datum) : (nest n d).depth = n + d.depth := by
+  induction n with
+  | zero => simp [nest]
+  | succ n ih => simp only [nest, Datum.depth, depths, ih]; omega
+
+theorem nest_wf (n : Nat) (i : Int) : WF (nest n (.int i)) = true := by
+  induction n with
+  | zero => rfl
+  | succ n ih =>
+    simp only [nest, WF, WFs, ih, headOK, Bool.and_true, Bool.true_and]
+    cases n <;> simp [nest, isQQ]
+
+/-- the guard `depth ≤ 128` of `read_write_partial` cannot be relaxed by even one level: these two data are
+    well formed, have depth 129, are different and are written identically (K12d) -/
+theorem depth_guard_tight :
+    WF (nest 128 (.int 1)) = true ∧ WF (nest 128 (.int 2)) = true ∧
+    (nest 128 (.int 1)).depth = 129 ∧ (nest 128 (.int 2)).depth = 129 ∧
+    nest 128 (.int 1) ≠ nest 128 (.int 2) ∧
+    write (nest 128 (.int 1)) = write (nest 128 (.int 2)) ∧
+    ¬ (read (write (nest 128 (.int 1))) = .ok [nest 128 (.int 1)] ∧
+       read (write (nest 128 (.int 2))) = .ok [nest 128 (.int 2)]) := by
+  refine ⟨nest_wf _ _, nest_wf _ _, by rw [nest_depth]; rfl, by rw [nest_depth]; rfl, ?_, ?_, ?_⟩
+  · intro h; have := nest_injective _ _ _ h; cases this
+  · rw [write_deep, write_deep]
+  · intro ⟨h1, h2⟩
+    rw [write_deep] at h1 h2
+    rw [h1] at h2
+    injection h2 with h2
+    injection h2 with h2 _
+    have := nest_injective _ _ _ h2
+    cases this
+
+set_option maxRecDepth 1000000 in
+/-- the witness at depth 129, evaluated: the text `((…(...)…))` reads back as the SYMBOL `...` 128 levels deep -/
+theorem counter_depth_129 : read (write (nest 128 (.int 1))) = .ok [nest 128 (.sym t!"...")] := by rfl
+
+/-- … while one level less is inside the theorem -/
+example : read (write (nest 127 (.int 1))) = .ok [nest 127 (.int 1)] :=
+  read_write_partial _ ⟨nest_wf _ _, by rw [nest_depth]; simp [Datum.depth]⟩
+
 /-! ## non-vacuity -/
 
 /-- a datum with every constructor of the class: nested lists, a pair, a vector, a byte vector,
@@ -297,21 +530,26 @@ full statement `ReadWrite` is refuted for the model (`not_ReadWrite`, `counter_*
 NOT carried by any theorem (covered only by the differential correspondence of checks/c12.py, or not at all):
 
  * **"accepts or rejects every text without failing itself"** for the real reader: a panic, abort, stack
-   overflow or hang of Rust code is not expressible in the model; and for the model itself
-   `read_total_partial` does not exclude the artificial outcomes `outOfFuel` / `unmodelled`.
+   overflow or hang of Rust code is not expressible in the model.  For the model itself `read_total` excludes
+   `outOfFuel` on every text (fuel adequacy of lexer and parser); `unmodelled` is reached exactly by texts with a
+   `@doc` comment or a polar literal token (`read_total_modelled`: without both, never; examples: with each, yes).
  * **Byte strings** that are not valid UTF-8: `Text = List Char`.
  * **Every reported location** other than token spans and the reader's error span: spans of AST nodes of
-   `Parser::parse` on success, spans attached to data by `(read)`, line/column information; that span ENDS
-   fall on character boundaries (needed for slicing the source in diagnostics).
+   `Parser::parse` on success, spans attached to data by `(read)`, line/column information; character-boundary
+   alignment is proved for TOKEN spans (`spans_on_char_boundaries`), not for error spans.
  * **Numbers of every kind**: inexact reals (decimal, exponent, `+inf.0`, `-inf.0`, `+nan.0`), complex
    numbers, radix and exactness prefixes (`#x`, `#e`, `#i`) on the WRITE side: `Representable`/`WF` are
    `false` on `.flo`/`.other`.  Only exact integers and reduced exact rationals round-trip by theorem.
- * **Symbols with arbitrary names**: only `symOK` names; for names with delimiters/whitespace, the empty
+ * **Symbols with arbitrary names**: only `symOK` names (the `|..|` path of the lexer, `scanBar`, is in the model and
+   compared token by token with the real lexer on every mix of 1-4 byte characters and escapes, and `print`'s
+   quoting is modelled and run, but no round-trip theorem mentions them); for names with delimiters/whitespace, the empty
    name, numeric-looking names, names starting with `+`/`-`/`.`/`#`, `|`-quoted names and the aliases
    `fn`/`defn`/`λ` the property is FALSE for the code that exists (K12a, K12b).
  * **Quotation forms** other than `quote`: `(quasiquote d)`, `(unquote d)`, `(unquote-splicing d)` and the
    `#'` syntax family as DATA are outside `WFD` (K12c shows one failing case; the others are untested here).
- * **Nesting deeper than 128** (the writer prints `...`, K12d).
+ * **Nesting deeper than 128**: carried negatively - `write_beyond_limit` / `write_deep` say what the writer does
+   (every datum at level ≥ 128 becomes `...`), `depth_guard_tight` / `counter_depth_129` that the round trip fails
+   at depth 129 for well-formed data (K12d); nothing positive can hold there.
  * **"printing a parsed program and parsing it again gives the same syntax tree"** (`parse ∘ pretty` on
    `ExprKind`): no model of `Parser::parse`'s lowering nor of the pretty printer; executed only.
  * **The writer of `scheme/print.scm`** (`write`/`display`/`print` implemented in Scheme with cycle labels)
